@@ -842,8 +842,11 @@ impl<R: Clone + 'static + crate::MemoryEstimator> GlobalCache<R> {
     /// assert_eq!(cache.get("key2"), None);
     /// ```
     pub fn clear(&self) {
+        // One critical section (queue lock first, as in `insert`), see the macro-generated
+        // invalidation callbacks
+        let mut order = self.order.lock();
         self.map.write().clear();
-        self.order.lock().clear();
+        order.clear();
     }
 }
 
